@@ -4,6 +4,7 @@ import (
 	"fmt"
 	"io"
 	"os"
+	"syscall"
 	"testing"
 
 	"github.com/google/logger"
@@ -16,6 +17,16 @@ var exitCode = core.ExitHarness
 // TestMain turns the test binary into the simulator CLI.  It is a test binary
 // only because testing/synctest bubbles need a *testing.T.
 func TestMain(m *testing.M) {
+	// The library's process-wide logger was initialised (by package init) to write to the
+	// *os.File that was os.Stdout at that time, and cannot be re-initialised.  Point that
+	// descriptor at /dev/null and keep a duplicate for the simulator's own output.
+	if fd, err := syscall.Dup(1); err == nil {
+		if null, err := os.OpenFile(os.DevNull, os.O_WRONLY, 0); err == nil {
+			if syscall.Dup3(int(null.Fd()), 1, 0) == nil {
+				os.Stdout = os.NewFile(uintptr(fd), "/dev/stdout")
+			}
+		}
+	}
 	m.Run()
 	os.Exit(exitCode)
 }
